@@ -6,6 +6,7 @@
 #include <sstream>
 
 struct BlocksShape {
+  bool cold = false;      // cold-start run: big input, no reference builds, first build of the process
   uint32_t set = 0;       // catalogue index
   int maxn = 120;
   unsigned long cut = 64;
@@ -15,7 +16,7 @@ struct BlocksShape {
 
 static std::string shape_spec(const BlocksShape &s) {
   std::ostringstream o;
-  o << "set=" << s.set << ",maxn=" << s.maxn << ",cut=" << s.cut << ",threads=" << s.threads << ",overhead=" << s.overhead;
+  o << "cold=" << (int)s.cold << ",set=" << s.set << ",maxn=" << s.maxn << ",cut=" << s.cut << ",threads=" << s.threads << ",overhead=" << s.overhead;
   return o.str();
 }
 
@@ -116,10 +117,20 @@ static std::string locate_field(const std::string &img, size_t off) {
   return "part_data+" + std::to_string(off - e);
 }
 
+static bool g_cold = false;
 static void derive(uint64_t base, uint64_t index, int catalogue, BlocksShape &sh, SimConfig &cfg) {
-  g_run_seed = mix64(mix64(base, 0xC09), index);
+  g_run_seed = mix64(mix64(base, g_cold ? 0xC01D : 0xC09), index);
   Prng r; r.seed(g_run_seed);
   sh = BlocksShape();
+  if (g_cold) {
+    sh.cold = true; sh.set = (uint32_t)r.below(64); sh.threads = (int)r.range(2, 4);
+    static const unsigned long cuts[] = {9000, 12000, 16000};
+    sh.cut = cuts[r.below(3)];
+    static const int ovs[] = {20, 25, 50};
+    sh.overhead = ovs[r.below(3)];
+    cfg = SimConfig();
+    return;
+  }
   sh.set = (uint32_t)r.below((uint64_t)catalogue);
   sh.maxn = 120;
   static const unsigned long cuts[] = {1, 8, 16, 64, 256, 1024, 1ul << 20};
@@ -139,19 +150,35 @@ static size_t count_blocks(const StringSet &ss, unsigned long cut) {
 }
 
 static int run_one(const BlocksShape &sh, SimConfig cfg, bool have_cfg, Prng *r) {
-  StringSet ss = catalogue_set(sh.set, sh.maxn);
+  StringSet ss = sh.cold ? catalogue_big(sh.set) : catalogue_set(sh.set, sh.maxn);
   size_t blocks = count_blocks(ss, sh.cut);
   if (!have_cfg) {
     int explen = 60 + 25 * sh.threads + 45 * (int)blocks;
     draw_sched(*r, cfg, sh.threads + 1, explen, true);
+    // cold-start runs look for first-use races between block builders: favour schedules in which
+    // several workers have taken a task before any of them starts building
+    if (sh.cold && r->chance(1, 2)) cfg.strategy = r->chance(1, 2) ? ST_PFRR : ST_RR;
+    if (sh.cold) { static const int pm[] = {0, 1, 1, 2}; cfg.pcguard_permille = pm[r->below(4)]; }
+    else if (cfg.pcguard_permille > 20) cfg.pcguard_permille = 20; // builds have 1e5..1e6 guard hits
   }
   cfg.keep_log = true;
   cfg.step_cap = 400000; cfg.fair_after = 200000;
-  g_spec = shape_spec(sh) + "," + sched_spec(cfg) + ",blocks=" + std::to_string(blocks);
+  g_spec = shape_spec(sh) + "," + sched_spec(cfg) + ",blocks=" + std::to_string(blocks); death_info_update();
   // references: one worker thread, run to completion, no faults, under the two extremal schedules
   // (producer-first and worker-first).  A failure of the first is symmetric (precondition_failed);
   // the second must agree with the first -- a 1-thread build must not depend on the schedule either.
   // Which extremal schedule goes first is seeded, so neither is privileged.
+  if (sh.cold) {
+    // lazily initialised shared state races only the first time it is touched in a process: the
+    // varied build is the first thing this process does
+    g_phase = "var";
+    printf("{\"begin\":%llu,\"phase\":\"var\"}\n", (unsigned long long)g_run_index); fflush(stdout);
+    BuildOut var = build_once(ss, sh, sh.threads, cfg);
+    std::string verdict = "ok", cls, detail;
+    if (!var.structure.empty()) { verdict = "violation"; cls = "incomplete_at_return"; detail = var.structure; }
+    emit(verdict, cls, detail, var.res, nullptr, &var);
+    return verdict == "ok" ? 0 : 1;
+  }
   bool low_first = (mix64(g_run_seed, 0x2ef) & 1) != 0;
   g_phase = "ref";
   printf("{\"begin\":%llu,\"phase\":\"ref\"}\n", (unsigned long long)g_run_index); fflush(stdout);
@@ -205,6 +232,7 @@ int main(int argc, char **argv) {
   if (mode == "run" && argc >= 6) {
     uint64_t base = strtoull(argv[2], 0, 0), first = strtoull(argv[3], 0, 0), count = strtoull(argv[4], 0, 0);
     int cat = atoi(argv[5]);
+    g_cold = argc > 6 && !strcmp(argv[6], "cold");
     for (uint64_t i = first; i < first + count; i++) {
       BlocksShape sh; SimConfig cfg; g_run_index = i; g_death_run = i;
       derive(base, i, cat, sh, cfg);
@@ -217,12 +245,14 @@ int main(int argc, char **argv) {
     BlocksShape sh; SimConfig cfg; std::vector<uint32_t> tb;
     g_verbose = true;
     if (mode == "one") {
+      g_cold = argc > 5 && !strcmp(argv[5], "cold");
       g_run_index = strtoull(argv[3], 0, 0); g_death_run = g_run_index;
       derive(strtoull(argv[2], 0, 0), g_run_index, atoi(argv[4]), sh, cfg);
       Prng r; r.seed(mix64(g_run_seed, 0x5c4ed));
       return run_one(sh, cfg, false, &r);
     }
     Spec m = parse_spec(argv[2]);
+    sh.cold = spec_i(m, "cold", 0) != 0;
     sh.set = (uint32_t)spec_u(m, "set", 0); sh.maxn = (int)spec_i(m, "maxn", 120); sh.cut = (unsigned long)spec_u(m, "cut", 64);
     sh.threads = (int)spec_i(m, "threads", 2); sh.overhead = (int)spec_i(m, "overhead", 20);
     sched_from_spec(m, cfg, tb);
